@@ -30,8 +30,9 @@ L = {
          'ops_equal_node_evaluations, evaluation_is_compositional (frame lemma) and big-step theorems (code_big_step ...). Decision: correspondence of '
          'type-directed programs with the model reading the source text itself.', 'translation-validation style.'),
  'C08': ('Theorems: literal_exact, add/sub/mul exact-then-rounded-once, fix_rounds_to_nearest (nearest, ties to even, whole domain), '
-         'division_is_correctly_rounded (sticky digit proved sufficient), cmp_is_exact_order. Correspondence vs CPython decimal; Fraction oracle monitor.',
-         'the rational identity a/b = divNum/divDen * 10^divExp is by construction.'),
+         'division_is_correctly_rounded (sticky digit proved sufficient), cmp_is_exact_order; against Q (RatSpec): arithmetic_is_correctly_rounded '
+         '(|r - (a op b)| <= 1/2 ulp(r) for + - * /, all operands), comparisons_are_rational_order, quotient_identity. Correspondence vs CPython decimal; Fraction oracle monitor.',
+         'pow / round / quantize against Q pending.'),
  'C09': ('Theorems: one-transition lemmas plus big-step theorems over sub-evaluations of any length (strict_bin_big_step, and/or/if-else laziness, '
          'args_big_step, dict_big_step, operand_then_frame) via the frame lemma. Correspondence: probe-log slice; monitors: probe order / count, value of and/or chains.',
          'three-part slice node and HOF callbacks: one-transition lemmas only.'),
@@ -47,9 +48,10 @@ L = {
          'programs with mutators: receiver-only effect pending.'),
  'C14': ('Theorems: ops_refine_dict and ops_refine_list (every operation sequence refines the mathematical dict / Python list spec, other objects untouched), one key '
          'cast everywhere, failing reads are ParserErrors. Correspondence: op sequences exhaustive to depth 2/3 + random.', 'slices of lists pending.'),
- 'C15': ('Theorems: token-level insignificance (closer_irrelevant, blank statements, trailing separators / commas) through parse_iff; lexer step lemmas. Critical ties: '
+ 'C15': ('Theorems: token-level insignificance (closer_irrelevant, blank statements, trailing separators / commas) through parse_iff; character level: '
+         'extra_blank_between_tokens_same_program (a blank at any point between two lexer steps changes neither tokens nor tree), parser_reads_kind_and_value. Critical ties: '
          'lexer rules, grammar. Correspondence + metamorphic monitor: plain vs decorated renderings incl. bare number / prefix-operator receivers.',
-         'character-level blank insertion over whole texts pending.'),
+         'comments / CRLF / bracket line breaks at the character level pending.'),
  'C16': ('Theorems: each listed failure is a ParserError at every position; parse outcomes are a tree or one of three ParserError kinds. Correspondence: malformed slice; '
          'fuzz monitor for never-a-non-Exception / never-a-crash (watched worker pool).', 'the no-crash half is measured; finding D17.'),
  'C17': ('Theorems: cache_transparent (simulation over every sequence of parse / list_names / eval, every forgetting / reordering policy, every genuine pre-warmed cache). '
